@@ -28,6 +28,13 @@ def poll (s : St) (op : Op) : St × Polled :=
   let (s2, o2) := step s1 op
   if o2.granted then (s2, .ready o2) else (s2, .pending)
 
+/-- The events `poll s op` goes through, in the vocabulary in which the translator reads `MRBFuture::poll` from the source
+(`Gen.pollTraces`): the same two tests on the same two outcomes as `poll`. -/
+def pollEvents (s : St) (op : Op) : List PollEv :=
+  if (step s op).2.granted then [.attemptOk, .ready] else
+  if (step (step s op).1 op).2.granted then [.attemptFail, .register, .attemptOk, .ready]
+  else [.attemptFail, .register, .attemptFail, .pending]
+
 /-- `poll` during which another stage performs `e` while the waker is being registered, i.e. between the two attempts
     (the window the second attempt exists for). -/
 def pollWith (s : St) (op e : Op) : St × Polled :=
